@@ -1239,3 +1239,213 @@ Proof.
   unfold current_route_url. destruct rname as [n|]; [|destruct matched as [n|]; [|discriminate]];
     intros H; exists n; split; auto.
 Qed.
+
+(* ------------------------------------------------------------ every '%' starts a %HH escape *)
+Fixpoint pct_ok (s : text) : bool :=
+  match s with
+  | [] => true
+  | c :: r =>
+      if c =? 37 then
+        match r with
+        | h :: l :: r2 => is_hex_upper h && is_hex_upper l && pct_ok r2
+        | _ => false
+        end
+      else pct_ok r
+  end.
+
+Lemma pct_ok_app_len n : forall a b, (length a <= n)%nat -> pct_ok a = true -> pct_ok b = true -> pct_ok (a ++ b) = true.
+Proof.
+  induction n as [|n IH]; intros a b Hl Ha Hb.
+  - destruct a; [assumption|simpl in Hl; lia].
+  - destruct a as [|c r]; [assumption|]. simpl in Hl. cbn [app pct_ok] in *.
+    destruct (c =? 37).
+    + destruct r as [|h [|l r2]]; try discriminate. cbn [app].
+      apply andb_true_iff in Ha. destruct Ha as [Hh Hr]. rewrite Hh. simpl.
+      apply IH; auto. simpl in Hl. lia.
+    + apply IH; auto. lia.
+Qed.
+Lemma pct_ok_app a b : pct_ok a = true -> pct_ok b = true -> pct_ok (a ++ b) = true.
+Proof. apply (pct_ok_app_len (length a)). lia. Qed.
+
+Lemma pct_ok_concat l : Forall (fun s => pct_ok s = true) l -> pct_ok (concat l) = true.
+Proof. induction 1; simpl; [reflexivity|apply pct_ok_app; assumption]. Qed.
+
+Lemma pct_ok_join sep l : pct_ok sep = true -> Forall (fun s => pct_ok s = true) l -> pct_ok (join sep l) = true.
+Proof.
+  intros Hs Hl. induction Hl as [|x r Hx Hr IH]; [reflexivity|].
+  destruct r as [|y r]; [assumption|].
+  change (pct_ok (x ++ sep ++ join sep (y :: r)) = true). repeat apply pct_ok_app; auto.
+Qed.
+
+Lemma pct_ok_quote safe bs : is_safe safe 37 = false -> Forall byte bs -> pct_ok (quote safe bs) = true.
+Proof.
+  intros H37 Hb. induction Hb as [|b r Hb _ IH]; [reflexivity|].
+  unfold quote in *. simpl flat_map. unfold quote1 at 1. destruct (is_safe safe b) eqn:E.
+  - cbn [app pct_ok]. destruct (N.eqb_spec b 37) as [->|Hne]; [congruence|assumption].
+  - cbn [app pct_ok]. rewrite N.eqb_refl. unfold byte in Hb.
+    rewrite !hexdigit_is_hex by lia. assumption.
+Qed.
+
+Lemma pct_ok_map_plus_len n : forall s, (length s <= n)%nat -> pct_ok (map plus_for_space s) = pct_ok s.
+Proof.
+  induction n as [|n IH]; intros s Hl; [destruct s; [reflexivity|simpl in Hl; lia]|].
+  destruct s as [|c r]; [reflexivity|]. simpl in Hl. cbn [map pct_ok].
+  assert (E : (plus_for_space c =? 37) = (c =? 37)) by (unfold plus_for_space; destruct (c =? 32) eqn:E; lia).
+  rewrite E. destruct (c =? 37).
+  - destruct r as [|h [|l r2]]; try reflexivity. cbn [map]. simpl in Hl.
+    assert (Hh : forall x, is_hex_upper (plus_for_space x) = is_hex_upper x).
+    { intros x. unfold plus_for_space, is_hex_upper. destruct (x =? 32) eqn:Ex; lia. }
+    rewrite !Hh, IH by lia. reflexivity.
+  - apply IH. lia.
+Qed.
+Lemma pct_ok_map_plus s : pct_ok (map plus_for_space s) = pct_ok s.
+Proof. apply (pct_ok_map_plus_len (length s)). lia. Qed.
+
+Lemma qps_pct safe v q : good_safe safe = true -> quote_path_segment safe v = Ok q -> pct_ok q = true.
+Proof.
+  intros Hg H. apply good_safe_spec in Hg. destruct Hg as [_ H37].
+  apply qps_ok in H. destruct H as (t & _ & Hv & ->). apply pct_ok_quote; [assumption|apply encode_bytes; assumption].
+Qed.
+
+Lemma path_safe_good safe : path_safe_ok safe = true -> good_safe safe = true.
+Proof. intros H. apply path_safe_ok_parts in H. tauto. Qed.
+
+Theorem join_elements_pct els s : join_elements els = Ok s -> pct_ok s = true.
+Proof.
+  pose proof Facts_ok_join_elements_safe as HF. unfold segment_safe_ok in HF.
+  apply andb_true_iff in HF. destruct HF as [HF _]. apply path_safe_good in HF.
+  unfold join_elements. intros H. apply rbind_ok in H. destruct H as (qs & Hqs & H). inversion H; subst.
+  apply pct_ok_join; [reflexivity|]. eapply mapM_Forall; [|eassumption]. intros x y. apply qps_pct; assumption.
+Qed.
+
+Theorem generate_pct p kw u : generate p kw = Ok u -> pct_ok u = true.
+Proof.
+  destruct compile_safe_parts as (S1 & S2 & S3). apply path_safe_good in S1, S2, S3.
+  unfold generate. intros H. apply rbind_ok in H. destruct H as (tpl & Htpl & H).
+  apply rbind_ok in H. destruct H as (d & Hd & H). apply rbind_ok in H. destruct H as (parts & Hparts & H).
+  inversion H; subst. clear H.
+  (* literals *)
+  assert (Lok : Forall (fun t => match t with TLit s => exists q, s = double_pct q /\ pct_ok q = true | TSlot _ => True end) tpl).
+  { unfold gen_template in Htpl. apply rbind_ok in Htpl. destruct Htpl as (pre & Hpre & Htpl).
+    apply rbind_ok in Htpl. destruct Htpl as (hs & Hhs & Htpl). inversion Htpl; subst. clear Htpl.
+    assert (LP : forall safe s t, good_safe safe = true -> lit_part safe s = Ok t ->
+                 match t with TLit s => exists q, s = double_pct q /\ pct_ok q = true | TSlot _ => True end).
+    { intros safe s t Hg Hl. unfold lit_part in Hl. apply rbind_ok in Hl. destruct Hl as (q & Hq & Hl).
+      inversion Hl; subst. exists q. split; [reflexivity|eapply qps_pct; eassumption]. }
+    constructor; [eapply (LP compile_prefix_safe); eassumption|]. apply Forall_app. split.
+    - apply Forall_concat. eapply mapM_Forall; [|eassumption]. intros [n s] y Hy. simpl in Hy.
+      destruct s as [|c r]; [inversion Hy; subst; repeat constructor|].
+      apply rbind_ok in Hy. destruct Hy as (l & Hl & Hy). inversion Hy; subst.
+      repeat constructor. eapply (LP compile_literal_safe); eassumption.
+    - destruct (star_slot p); repeat constructor. }
+  (* values *)
+  assert (Dok : Forall (fun kv => pct_ok (snd kv) = true) d).
+  { unfold build_newdict in Hd. eapply mapM_Forall; [|eassumption]. intros [k v] y Hy. simpl in Hy.
+    apply rbind_ok in Hy. destruct Hy as (q & Hq & Hy). inversion Hy; subst. simpl.
+    assert (QV : forall x z, q_value x = Ok z -> pct_ok z = true) by (intros x z; apply qps_pct; assumption).
+    destruct v as [v|l shown]; simpl in Hq.
+    - destruct v; try (eapply QV; eassumption).
+      apply rbind_ok in Hq. destruct Hq as (t & _ & Hq). eapply QV; eassumption.
+    - destruct (is_star_key p k); [|eapply QV; eassumption].
+      apply rbind_ok in Hq. destruct Hq as (qs & Hqs & Hq). inversion Hq; subst.
+      apply pct_ok_join; [reflexivity|]. eapply mapM_Forall; [|eassumption]. intros x z. apply QV. }
+  apply pct_ok_concat. apply mapM_ok in Hparts. clear Htpl.
+  induction Hparts as [|t r tpl' parts' Hr _ IH]; [constructor|].
+  inversion Lok as [|? ? Ht Lok']; subst. constructor; [|apply IH; assumption].
+  destruct t as [s|n]; simpl in Hr.
+  - destruct Ht as (q & -> & Hq). rewrite undouble_double in Hr. inversion Hr; subst. assumption.
+  - destruct (assoc n d) as [v|] eqn:Ea; [|discriminate]. inversion Hr; subst.
+    destruct (assoc_in _ _ _ Ea) as (k & Hin). rewrite Forall_forall in Dok. apply (Dok _ Hin).
+Qed.
+
+Lemma url_quote_pct safe v q : good_safe safe = true -> wf_val v -> url_quote safe v = Ok q -> pct_ok q = true.
+Proof.
+  intros Hg Hw H. apply good_safe_spec in Hg. destruct Hg as [_ H37].
+  unfold url_quote in H. apply rbind_ok in H. destruct H as (b & Hb & H). inversion H; subst.
+  apply pct_ok_quote; [assumption|eapply to_bytes_bytes; eassumption].
+Qed.
+
+Lemma quote_via_pct v q : wf_val v -> quote_via v = Ok q -> pct_ok q = true.
+Proof.
+  pose proof Facts_ok_quote_plus_safe as HF. cbv zeta in HF.
+  do 5 (apply andb_true_iff in HF; let H := fresh "HF" in destruct HF as [HF H]).
+  apply good_safe_spec in HF. destruct HF as [_ H37].
+  intros Hw H. unfold quote_via in H. rewrite Facts_ok_quote_via in H. unfold quote_plus in H.
+  apply rbind_ok in H. destruct H as (b & Hb & H). inversion H; subst. unfold quote_plus_bytes.
+  rewrite pct_ok_map_plus. apply pct_ok_quote; [assumption|eapply to_bytes_bytes; eassumption].
+Qed.
+
+Definition pinv (st : text * text) : Prop := pct_ok (fst st) = true /\ (snd st = [] \/ snd st = [38]).
+
+Lemma emit_pinv st k x : pinv st -> pct_ok k = true -> pct_ok x = true -> pinv (emit st k x).
+Proof.
+  intros [H1 H2] Hk Hx. unfold emit, pinv. cbn [fst snd]. split; [|right; reflexivity].
+  replace kv_sep with [61] by reflexivity.
+  repeat apply pct_ok_app; auto. destruct H2 as [->| ->]; reflexivity.
+Qed.
+
+Lemma emit_seq_pinv l : forall st k st',
+  pinv st -> pct_ok k = true -> Forall wf_val l -> emit_seq st k l = Ok st' -> pinv st'.
+Proof.
+  induction l as [|v r IH]; intros st k st' Hi Hk Hw H; simpl in H; [inversion H; subst; assumption|].
+  inversion Hw as [|? ? Hwv Hwr]; subst. apply rbind_ok in H. destruct H as (qx & Hqx & H).
+  eapply IH; [| |eassumption|eassumption]; [|assumption]. apply emit_pinv; auto. eapply quote_via_pct; eassumption.
+Qed.
+
+Theorem urlencode_pct l s : Forall wf_pair l -> urlencode l = Ok s -> pct_ok s = true.
+Proof.
+  intros Hw H. unfold urlencode in H. apply rbind_ok in H. destruct H as (st & Hst & H). inversion H; subst.
+  assert (G : forall l st st', pinv st -> Forall wf_pair l -> urlencode_loop st l = Ok st' -> pinv st').
+  { clear. induction l as [|kv r IH]; intros st st' Hi Hw H; simpl in H; [inversion H; subst; assumption|].
+    inversion Hw as [|? ? [Hwk Hwv] Hwr]; subst. apply rbind_ok in H. destruct H as (st1 & H1 & H).
+    eapply IH; [|eassumption|eassumption]. unfold urlencode_step in H1.
+    apply rbind_ok in H1. destruct H1 as (k & Hk & H1). apply rbind_ok in H1. destruct H1 as (st2 & H2 & H1).
+    inversion H1; subst. pose proof (quote_via_pct _ _ Hwk Hk) as Hkc.
+    assert (G2 : pinv st2).
+    { destruct (snd kv) as [|v|l'] eqn:Ev; simpl in Hwv.
+      - inversion H2; subst. apply emit_pinv; auto.
+      - destruct v as [t|b|z|kk sh];
+          try (apply rbind_ok in H2; destruct H2 as (qv & Hqv & H2); inversion H2; subst;
+               apply emit_pinv; auto; eapply quote_via_pct; eassumption).
+        eapply emit_seq_pinv; [| |apply show_byte_wf|eassumption]; assumption.
+      - eapply emit_seq_pinv; eassumption. }
+    destruct G2 as [G21 G22]. split; [assumption|right; reflexivity]. }
+  apply (G l ([], []) st); auto. split; [reflexivity|left; reflexivity].
+Qed.
+
+(* everything route_url appends to the application URL has only well-formed escapes *)
+Theorem route_url_pct c e rs n els o kw u :
+  wf_query (o_query o) -> wf_anchor (o_anchor o) ->
+  join_elements_c c els = join_elements els ->
+  route_url c e rs n els o kw = Ok u ->
+  exists app rest, parse_app e o = Ok app /\ u = app ++ rest /\ pct_ok rest = true.
+Proof.
+  intros Hwq Hwa Hc H. unfold route_url in H. destruct (assoc n rs) as [p|]; [|discriminate].
+  rewrite parse_url_overrides_eq in H.
+  apply rbind_ok in H. destruct H as ([[app qs] fr] & H0 & H).
+  apply rbind_ok in H0. destruct H0 as (app' & Happ & H0). apply rbind_ok in H0. destruct H0 as ([qs' fr'] & Ht & H0).
+  inversion H0; subst. clear H0. simpl in H.
+  unfold tail_parts in Ht. apply rbind_ok in Ht. destruct Ht as (qs0 & Hqs & Ht).
+  apply rbind_ok in Ht. destruct Ht as (fr0 & Hfr & Ht). inversion Ht; subst. clear Ht.
+  apply rbind_ok in H. destruct H as (path & Hp & H). apply rbind_ok in H. destruct H as (sfx & Hs & H).
+  inversion H; subst. clear H.
+  eexists _, _. split; [eassumption|]. split; [reflexivity|].
+  pose proof Facts_ok_query_str_safe as Fq. apply query_safe_ok_parts in Fq. destruct Fq as (Gq & _).
+  pose proof Facts_ok_anchor_quote_safe as Fa. apply query_safe_ok_parts in Fa. destruct Fa as (Ga & _).
+  repeat apply pct_ok_app.
+  - eapply generate_pct; eassumption.
+  - destruct els as [|x els']; [inversion Hs; reflexivity|].
+    rewrite Hc in Hs. apply rbind_ok in Hs. destruct Hs as (s & Hj & Hs). inversion Hs; subst.
+    pose proof (join_elements_pct _ _ Hj) as Hjp. destruct (endswith_char 47 path); [assumption|exact Hjp].
+  - unfold query_string in Hqs. destruct (o_query o) as [[t|l]|]; [| |inversion Hqs; reflexivity].
+    + destruct (query_truthy (QStr t)); [|inversion Hqs; reflexivity].
+      apply rbind_ok in Hqs. destruct Hqs as (s & Hs' & Hqs). inversion Hqs; subst.
+      replace qs_prefix with [63] by reflexivity. simpl. eapply (url_quote_pct _ (PStr t)); [eassumption|exact I|eassumption].
+    + destruct (query_truthy (QPairs l)); [|inversion Hqs; reflexivity].
+      apply rbind_ok in Hqs. destruct Hqs as (s & Hs' & Hqs). inversion Hqs; subst.
+      replace qs_prefix with [63] by reflexivity. simpl. eapply urlencode_pct; eassumption.
+  - unfold fragment in Hfr. destruct (o_anchor o) as [v|]; [|inversion Hfr; reflexivity].
+    destruct (truthy v); [|inversion Hfr; reflexivity].
+    apply rbind_ok in Hfr. destruct Hfr as (s & Hs' & Hfr). inversion Hfr; subst.
+    replace frag_prefix with [35] by reflexivity. simpl. eapply url_quote_pct; eassumption.
+Qed.
